@@ -11,6 +11,7 @@ is symbolic is the *fault plan*:
 Every mutating call `tick()`s; observing calls tick only when tick_reads is set.
 An operation the model does not know raises V.HarnessGap (never a verdict).
 """
+import copy as _copy
 import errno as _errno
 import posixpath
 import stat as _stat
@@ -27,7 +28,7 @@ O_CREAT, O_EXCL, O_TRUNC, O_APPEND = 0o100, 0o200, 0o1000, 0o2000
 
 
 class Inode:
-    __slots__ = ('ino', 'kind', 'data', 'durable', 'nlink', 'mode', 'target', 'mtime', 'ctime', 'tag')
+    __slots__ = ('ino', 'kind', 'data', 'durable', 'nlink', 'mode', 'target', 'mtime', 'ctime', 'tag', 'tag_lock')
 
     def __init__(self, ino, kind, mode, clock):
         self.ino = ino
@@ -40,6 +41,7 @@ class Inode:
         self.mtime = clock
         self.ctime = clock
         self.tag = None
+        self.tag_lock = None
 
 
 class StatResult:
@@ -474,6 +476,31 @@ class SymFS:
             raise _err(_errno.ENOENT, p)
         self.done('utime', q)
 
+    def fstat(self, fd):
+        f = self.fds.get(fd)
+        if f is None:
+            raise _err(_errno.EBADF)
+        n = f.node
+        return StatResult(_stat.S_IFREG | n.mode, n.ino, 1, n.nlink, len(n.data), n.mtime, n.ctime)
+
+    def samefile(self, a, b):
+        qa = self._resolve(self.norm(a))
+        qb = self._resolve(self.norm(b))
+        if not (qa in self.names or qa in self.dirs):
+            raise _err(_errno.ENOENT, a)
+        if not (qb in self.names or qb in self.dirs):
+            raise _err(_errno.ENOENT, b)
+        return qa == qb
+
+    def read_tag(self, p):
+        n = self.names.get(self._resolve(p))
+        return None if n is None else _copy.deepcopy(n.tag)
+
+    def env_op(self, name, thunk, path=None):
+        """an environment function that reads shared state (must be an operation so that
+        process replay does not re-evaluate it at a different time)"""
+        return thunk()
+
     def mktemp_name(self, dir, prefix='tmp', suffix=''):
         self.tmp_counter += 1
         return posixpath.join(dir or '.', '%s%04d%s' % (prefix, self.tmp_counter, suffix))
@@ -677,3 +704,159 @@ class FakeOS:
 
     def __getattr__(self, name):
         raise V.HarnessGap('os.%s not modelled' % name)
+
+
+# ---------------------------------------------------------------------------
+# object codec, locks, shutil/tempfile facades (used by C15 and the world harness)
+import copy as _copy
+import json as _json
+
+
+class WouldBlock(BaseException):
+    """a blocking lock cannot be taken now"""
+
+
+def _flock(self, exclusive):
+    n = self.node
+    st = getattr(n, 'tag_lock', None)
+    if st is None:
+        st = n.tag_lock = {'ex': None, 'sh': []}
+    if exclusive:
+        if (st['ex'] is not None and st['ex'] is not self) or [h for h in st['sh'] if h is not self]:
+            raise WouldBlock()
+        st['ex'] = self
+    else:
+        if st['ex'] is not None and st['ex'] is not self:
+            raise WouldBlock()
+        if self not in st['sh']:
+            st['sh'].append(self)
+
+
+def _funlock(self):
+    st = getattr(self.node, 'tag_lock', None)
+    if st is None:
+        return
+    if st['ex'] is self:
+        st['ex'] = None
+    if self in st['sh']:
+        st['sh'].remove(self)
+
+
+def _json_dump(self, obj):
+    if not self.writable_:
+        raise OSError(_errno.EBADF, 'not writable')
+    self.fs.tick('write', self.path, 1)
+    self.node.tag = _copy.deepcopy(obj)
+    self.node.data = b'J'
+    self.pos = 1
+    self.fs._touch(self.node)
+    self.fs.done('write', self.path)
+
+
+def _json_load(self):
+    if self.node.tag is None or self.node.data != b'J':
+        raise _json.JSONDecodeError('corrupt', 'x', 0)
+    return _copy.deepcopy(self.node.tag)
+
+
+def _close_unlock(self):
+    _funlock(self)
+    FakeFile._plain_close(self)
+
+
+FakeFile.flock = _flock
+FakeFile.funlock = _funlock
+FakeFile.json_dump = _json_dump
+FakeFile.json_load = _json_load
+FakeFile._plain_close = FakeFile.close
+FakeFile.close = _close_unlock
+
+
+class FakeJson:
+    JSONDecodeError = _json.JSONDecodeError
+
+    @staticmethod
+    def load(f):
+        return f.json_load()
+
+    @staticmethod
+    def dump(obj, f, **kw):
+        return f.json_dump(obj)
+
+
+class FakeTempDir:
+    def __init__(self, fs, dir=None, **kw):
+        self.fs = fs
+        self.name = fs.mktemp_name(dir or '/tmp', 'tmpdir')
+        fs.mkdir(self.name)
+
+    def __enter__(self):
+        return self.name
+
+    def __exit__(self, *a):
+        self.cleanup()
+        return False
+
+    def cleanup(self):
+        self.fs.rmtree(self.name, ignore_errors=True)
+
+
+class FakeShutil:
+    def __init__(self, fs):
+        self.fs = fs
+
+    def copyfile(self, src, dst, **kw):
+        d = self.fs.read_data(src)
+        if d is None:
+            raise _err(_errno.ENOENT, src)
+        tag = self.fs.read_tag(src)
+        with self.fs.open(dst, 'wb') as f:
+            f.write(d)
+            f.node.tag = _copy.deepcopy(tag)
+        return dst
+
+    def copystat(self, src, dst, **kw):
+        self.fs.chmod(dst, self.fs.stat(src).st_mode & 0o7777)
+
+    def copy2(self, src, dst, **kw):
+        self.copyfile(src, dst)
+        self.copystat(src, dst)
+        return dst
+
+    def copytree(self, src, dst, symlinks=False, copy_function=None, **kw):
+        cf = copy_function or self.copy2
+        self.fs.mkdir(dst)
+        for name in self.fs.listdir(src):
+            s = posixpath.join(src, name)
+            d = posixpath.join(dst, name)
+            if self.fs.islink(s) and symlinks:
+                self.fs.symlink(self.fs.readlink(s), d)
+            elif self.fs.isdir(s):
+                self.copytree(s, d, symlinks, copy_function)
+            else:
+                cf(s, d)
+        return dst
+
+    def move(self, src, dst, copy_function=None):
+        real = dst
+        if self.fs.isdir(dst):
+            real = posixpath.join(dst, posixpath.basename(src.rstrip('/')))
+            if self.fs.exists(real):
+                raise _err(_errno.EEXIST, real)
+        self.fs.rename(src, real)
+        return real
+
+    def rmtree(self, p, ignore_errors=False, onerror=None, **kw):
+        return self.fs.rmtree(p, ignore_errors)
+
+
+def _fstat(self, fd):
+    return self.fs.fstat(fd)
+
+
+def _samefile(self, a, b):
+    return self.fs.samefile(a, b)
+
+
+FakeOS.fstat = _fstat
+FakePath.samefile = _samefile
